@@ -148,6 +148,8 @@ def drange(t0 = None, t1 = None, bump = None):
         return [t0]        
     if bump is None:
         bump = 1 if t0<t1 else -1
+    if isinstance(bump, np.timedelta64):
+        bump = pd.Timedelta(bump).to_pytimedelta() # numpy's timedelta is a timedelta, as it is for dt_bump
     if is_int(bump):
         bump = int(bump) # a numpy integer of a small width overflows in the products below
         if (t1-t0).days * bump <= 0:
